@@ -29,3 +29,36 @@ def bind(known):
         k2["_match"] = fn
         out.append(k2)
     return out
+
+
+@matcher("C11-igp-hook-other-denom")
+def _igp(f):
+    """Hyperlane transfer through a mailbox whose default hook is an IGP charging in a denomination that
+    differs from the transferred one, while the orbiter account holds that denomination."""
+    if f.kind != "oracle" or not f.message.startswith("other-denom-touched"):
+        return False
+    l = _line(f)
+    if "PROTOCOL_HYPERLANE" not in unhx(l.split(" ")[5]).decode("utf-8", "replace"):
+        return False
+    return any(x.startswith("env hyp igp ") for x in f.lines[: f.index if f.index >= 0 else None])
+
+
+@matcher("C13-reverse-key-pagination")
+def _revkey(f):
+    """query.CollectionPaginate with reverse=true and a non-empty key: the SDK seeks to PrefixEndBytes(prefix+key),
+    so every stored key that extends the given key is visited again; with limit 1 the walk never progresses."""
+    return f.kind == "oracle" and f.message.startswith("walk-reverse-key")
+
+
+@matcher("C15-both-oneof-members")
+def _oneof(f):
+    """a fee entry carrying both members of the fee_type oneof (basis_points and amount): gogoproto jsonpb applies the
+    members in Go map iteration order, the last one visited wins"""
+    return f.kind == "oracle" and (f.message.startswith("impure-oneof") or f.message.startswith("nondeterministic-oneof"))
+
+
+@matcher("C19-unknown-field-scapegoat")
+def _scapegoat(f):
+    """payload JSON with two or more unknown fields: gogoproto jsonpb names an arbitrary one ("Pick any field to be the
+    scapegoat") and the orbiter embeds err.Error() verbatim in the acknowledgement, which IBC commits"""
+    return f.kind == "oracle" and f.message.startswith("nondeterministic-unknown-field-text:")
